@@ -68,7 +68,50 @@ class Ctx:
 CTX = Ctx()
 
 
+_QCACHE = {}
+
+
+def _quantified(t):
+    key = t.get_id()
+    hit = _QCACHE.get(key)
+    if hit is not None and hit[0].eq(t):
+        return hit[1]
+    stack, seen, res = [t], set(), False
+    while stack:
+        x = stack.pop()
+        if x.get_id() in seen:
+            continue
+        seen.add(x.get_id())
+        if z3.is_quantifier(x):
+            res = True
+            break
+        stack.extend(x.children())
+    if len(_QCACHE) > 20000:
+        _QCACHE.clear()
+    _QCACHE[key] = (t, res)
+    return res
+
+
 def _feasible(conds, extra) -> bool:
+    if any(_quantified(c) for c in conds) or _quantified(extra):
+        # paths over abstract sequences: decide feasibility on the quantifier-free part only.  Dropping assumptions can only
+        # make an infeasible path look feasible, which is sound (its obligations are then discharged from the full path
+        # condition); quantified queries at every branch would be slow and mostly `unknown`.
+        from . import seq
+        if not seq.GENERIC:
+            # outermost path: every surviving path repeats all nested work, so a short full query that can prune is worth it
+            s = z3.Solver()
+            s.set('timeout', CTX.branch_timeout_ms)
+            s.add(*CTX.global_axioms)
+            s.add(*CTX.string_axioms())
+            s.add(*conds)
+            s.add(extra)
+            CTX.stats['feas_checks'] += 1
+            if s.check() == z3.unsat:
+                return False
+        conds = [c for c in conds if not _quantified(c)]
+        if _quantified(extra):
+            return True
     s = z3.Solver()
     s.set('timeout', CTX.branch_timeout_ms)
     s.add(*CTX.global_axioms)
@@ -184,10 +227,10 @@ class Path:
 
 
 class Outcome:
-    __slots__ = ('conds', 'kind', 'value', 'obligations')
+    __slots__ = ('conds', 'kind', 'value', 'obligations', 'facts')
 
-    def __init__(self, conds, kind, value, obligations):
-        self.conds, self.kind, self.value, self.obligations = conds, kind, value, obligations
+    def __init__(self, conds, kind, value, obligations, facts=()):
+        self.conds, self.kind, self.value, self.obligations, self.facts = conds, kind, value, obligations, facts
 
     def cond(self):
         return z3.And(*self.conds) if self.conds else z3.BoolVal(True)
@@ -219,7 +262,10 @@ def explore(thunk, base=(), want_local_conds=False):
             CTX.paths.pop()
             work.extend(p.pending)
         CTX.stats['paths'] += 1
-        if want_local_conds:
+        if want_local_conds == 'collect':
+            # the caller exports the facts itself (sequence layer: universally quantified over the generic index)
+            outs.append(Outcome(list(p.local), kind, v, p.obligations, [(list(p.local[:n]), fact) for n, fact in p.facts]))
+        elif want_local_conds:
             outs.append(Outcome(list(p.local), kind, v, p.obligations))
             for n, fact in p.facts:
                 exported.append(z3.Implies(z3.And(*p.local[:n]), fact) if n else fact)
@@ -227,7 +273,7 @@ def explore(thunk, base=(), want_local_conds=False):
             outs.append(Outcome(p.all_conds(), kind, v, p.obligations))
         if len(outs) > CTX.max_paths:
             raise PathExplosion()
-    if want_local_conds and CTX.paths:
+    if want_local_conds and want_local_conds != 'collect' and CTX.paths:
         seen = set()
         for f in exported:
             if f.get_id() not in seen:
@@ -527,7 +573,13 @@ class IDict:
                 return idx
         return -1
 
+    def _mutating(self, what):
+        if getattr(self, 'frozen', False):
+            from .seq import note_frame_violation
+            note_frame_violation(what + ' on a dictionary that belongs to an input sequence')
+
     def set(self, k, v):
+        self._mutating('item assignment')
         i = self._find(k)
         if i >= 0:
             self.items_[i] = (self.items_[i][0], v)
@@ -542,6 +594,7 @@ class IDict:
         return self._find(k) >= 0
 
     def pop(self, k, *default):
+        self._mutating('pop/del')
         i = self._find(k)
         if i < 0:
             if default:
